@@ -95,7 +95,7 @@ _BUILTINS = {
     'sorted': sorted, 'zip': zip, 'enumerate': enumerate, 'min': min,
     'max': max, 'abs': abs, 'bool': bool, 'str': str, 'reversed': reversed,
     'sum': sum, 'any': any, 'all': all, 'ord': ord, 'chr': chr, 'bytes': bytes,
-    'bytearray': bytearray, 'divmod': divmod, 'round': round,
+    'bytearray': bytearray, 'divmod': divmod, 'round': round, 'format': format, 'repr': repr, 'hex': hex, 'bin': bin, 'oct': oct,
     'object': object, 'map': map, 'filter': filter, 'iter': iter, 'next': next, 'setattr': setattr, 'getattr': getattr,
 }
 _SAFE_METHODS = {
